@@ -10,8 +10,7 @@ import S3V.Spec.Policy
   read gives the JSON back (`…Json_of_…`);
 * `fromJson?_of_grammar`: a document of the (string-valued) grammar is accepted, and re-encodes to
   `canon` of itself when no name repeats inside its maps;
-* `grammar_of_fromJson?`: an accepted document outside the (one remaining) `quirk` region is in the
-  grammar;
+* `grammar_of_fromJson?`: an accepted document is in the grammar (no exception any more);
 * `violation_mono`: the string-valued grammar lies inside the published one.
 -/
 namespace S3V.Policy
@@ -105,7 +104,7 @@ theorem stmt_fold (ms : List (Bytes × Json)) : ∀ acc : StAcc,
     ms.foldlM stmtField acc =
       (slot optString acc.sid (valuesOf kSid ms)).bind fun s =>
       (slot principalMemberOf acc.principal (membersOf2 kPrincipal kNotPrincipal ms)).bind fun p =>
-      (slot (unitEnum effectOfName) acc.effect (valuesOf kEffect ms)).bind fun e =>
+      (slot (nameEnum effectOfName) acc.effect (valuesOf kEffect ms)).bind fun e =>
       (slot actionMemberOf acc.action (membersOf2 kAction kNotAction ms)).bind fun a =>
       (slot resourceMemberOf acc.resource (membersOf2 kResource kNotResource ms)).bind fun r =>
       (slot optCondition acc.condition (valuesOf kCondition ms)).bind fun c =>
@@ -153,7 +152,7 @@ theorem stmt_fold (ms : List (Bytes × Json)) : ∀ acc : StAcc,
       cases hv : acc.effect with
       | some x => simp [slot]
       | none =>
-        cases hf : unitEnum effectOfName v with
+        cases hf : nameEnum effectOfName v with
         | none => simp [slot, hf]
         | some y => simp [slot, hf, ih]
     by_cases h5 : k = kAction
@@ -497,9 +496,9 @@ theorem optVersion_of_grammar (v : Json) (h : versionValueViol v = none) :
   | str s =>
     simp only [versionValueViol] at h
     by_cases h1 : s = n2012
-    · exact ⟨some .v2012_10_17, by simp [optVersion, unitEnum, versionOfName, h1], by simp [optVersionJson, versionName, h1]⟩
+    · exact ⟨some .v2012_10_17, by simp [optVersion, nameEnum, versionOfName, h1], by simp [optVersionJson, versionName, h1]⟩
     · by_cases h2 : s = n2008
-      · exact ⟨some .v2008_10_17, by simp [optVersion, unitEnum, versionOfName, h2, n2008, n2012],
+      · exact ⟨some .v2008_10_17, by simp [optVersion, nameEnum, versionOfName, h2, n2008, n2012],
           by simp [optVersionJson, versionName, h2]⟩
       · simp [h1, h2] at h
   | obj ms =>
@@ -509,33 +508,28 @@ theorem optVersion_of_grammar (v : Json) (h : versionValueViol v = none) :
     · simp [versionValueViol] at h
   | _ => simp [versionValueViol] at h
 
-theorem grammar_of_optVersion (v : Json) (x : Option Version) (h : optVersion v = some x)
-    (hq : enumObjectForm v = false) : versionValueViol v = none := by
+theorem grammar_of_optVersion (v : Json) (x : Option Version) (h : optVersion v = some x) :
+    versionValueViol v = none := by
   cases v with
   | null => rfl
   | str s =>
-    simp only [optVersion, unitEnum, versionOfName] at h
+    simp only [optVersion, nameEnum, versionOfName] at h
     by_cases h1 : s = n2012
     · simp [versionValueViol, h1]
     · by_cases h2 : s = n2008
       · simp [versionValueViol, h2]
       · simp [h1, h2] at h
-  | obj ms =>
-    rcases ms with _ | ⟨⟨k, x⟩, _ | _⟩
-    · simp [optVersion, unitEnum] at h
-    · cases x <;> simp [optVersion, unitEnum, enumObjectForm] at h hq
-    · simp [optVersion, unitEnum] at h
-  | _ => simp [optVersion, unitEnum] at h
+  | _ => simp [optVersion, nameEnum] at h
 
 theorem effect_of_grammar (v : Json) (h : effectValueViol v = none) :
-    ∃ e, unitEnum effectOfName v = some e ∧ Json.str (effectName e) = v := by
+    ∃ e, nameEnum effectOfName v = some e ∧ Json.str (effectName e) = v := by
   cases v with
   | str s =>
     simp only [effectValueViol] at h
     by_cases h1 : s = nAllow
-    · exact ⟨.allow, by simp [unitEnum, effectOfName, h1], by simp [effectName, h1]⟩
+    · exact ⟨.allow, by simp [nameEnum, effectOfName, h1], by simp [effectName, h1]⟩
     · by_cases h2 : s = nDeny
-      · exact ⟨.deny, by simp [unitEnum, effectOfName, h2, nAllow, nDeny], by simp [effectName, h2]⟩
+      · exact ⟨.deny, by simp [nameEnum, effectOfName, h2, nAllow, nDeny], by simp [effectName, h2]⟩
       · simp [h1, h2] at h
   | obj ms =>
     rcases ms with _ | ⟨⟨k, x⟩, _ | _⟩
@@ -544,22 +538,17 @@ theorem effect_of_grammar (v : Json) (h : effectValueViol v = none) :
     · simp [effectValueViol] at h
   | _ => simp [effectValueViol] at h
 
-theorem grammar_of_effect (v : Json) (e : Effect) (h : unitEnum effectOfName v = some e)
-    (hq : enumObjectForm v = false) : effectValueViol v = none := by
+theorem grammar_of_effect (v : Json) (e : Effect) (h : nameEnum effectOfName v = some e) :
+    effectValueViol v = none := by
   cases v with
   | str s =>
-    simp only [unitEnum, effectOfName] at h
+    simp only [nameEnum, effectOfName] at h
     by_cases h1 : s = nAllow
     · simp [effectValueViol, h1]
     · by_cases h2 : s = nDeny
       · simp [effectValueViol, h2]
       · simp [h1, h2] at h
-  | obj ms =>
-    rcases ms with _ | ⟨⟨k, x⟩, _ | _⟩
-    · simp [unitEnum] at h
-    · cases x <;> simp [unitEnum, enumObjectForm] at h hq
-    · simp [unitEnum] at h
-  | _ => simp [unitEnum] at h
+  | _ => simp [nameEnum] at h
 
 /-! ### blocks: at most one / exactly one -/
 
@@ -614,7 +603,7 @@ theorem statementOfMembers_eq (ms : List (Bytes × Json)) :
     statementOfMembers ms =
       (slot optString none (valuesOf kSid ms)).bind fun sid =>
       (slot principalMemberOf none (membersOf2 kPrincipal kNotPrincipal ms)).bind fun pr =>
-      (slot (unitEnum effectOfName) none (valuesOf kEffect ms)).bind fun ef =>
+      (slot (nameEnum effectOfName) none (valuesOf kEffect ms)).bind fun ef =>
       (slot actionMemberOf none (membersOf2 kAction kNotAction ms)).bind fun ac =>
       (slot resourceMemberOf none (membersOf2 kResource kNotResource ms)).bind fun re =>
       (slot optCondition none (valuesOf kCondition ms)).bind fun co =>
@@ -738,7 +727,7 @@ theorem statement_of_grammar (ms : List (Bytes × Json)) (h : stmtViol false (.o
     (fun k w => if k = kResource then ResourceRule.resource w else .notResource w) (fun _ => rfl) resourceMember
     resourceMember_mk .resourceShape .resourceMissing ms h5
   obtain ⟨pr, hpr, hjp⟩ := principal_of_grammar ms h2
-  have hse : slot (unitEnum effectOfName) none (valuesOf kEffect ms) = some (some e) := by
+  have hse : slot (nameEnum effectOfName) none (valuesOf kEffect ms) = some (some e) := by
     rw [hme]; simp [slot, he]
   refine ⟨_, by rw [statementOfMembers_eq, hrs, hpr, hse, ha, hr, hrc]; rfl, ?_⟩
   intro hu
@@ -746,13 +735,12 @@ theorem statement_of_grammar (ms : List (Bytes × Json)) (h : stmtViol false (.o
   simp only [statementJson, canonStmt, pick, hjp hu.1, hjs (fun _ _ => trivial), hjc hu.2, hme, ← hma, ← hmr, hje]
   simp
 
-theorem grammar_of_statement (ms : List (Bytes × Json)) (s : Statement) (h : statementOfMembers ms = some s)
-    (hq : stmtQuirk (.obj ms) = false) : stmtViol false (.obj ms) = none := by
+theorem grammar_of_statement (ms : List (Bytes × Json)) (s : Statement) (h : statementOfMembers ms = some s) :
+    stmtViol false (.obj ms) = none := by
   rw [statementOfMembers_eq] at h
   simp only [Option.bind_eq_some_iff] at h
   obtain ⟨sid, hsid, pr, hpr, ef, hef, ac, hac, re, hre, co, hco, effect, heffect, action, haction, resource,
     hresource, _⟩ := h
-  simp only [stmtQuirk] at hq
   simp only [stmtViol, Option.or_eq_none_iff]
   refine ⟨?_, grammar_of_principal ms pr hpr, ?_, ?_, ?_, ?_⟩
   · exact grammar_of_slot_opt optString (optStringValueViol .sidShape) (fun _ => True) .dupMember _
@@ -760,9 +748,8 @@ theorem grammar_of_statement (ms : List (Bytes × Json)) (s : Statement) (h : st
   · subst heffect
     rcases (slot_none_some_iff _ _ _).mp hef with ⟨_, hh⟩ | ⟨v, x, hm, hx, _⟩
     · cases hh
-    · rw [hm] at hq ⊢
-      simp at hq
-      simpa [exactlyOne] using grammar_of_effect v x hx hq
+    · rw [hm]
+      simpa [exactlyOne] using grammar_of_effect v x hx
   · subst haction
     exact grammar_of_rule kAction kNotAction actionMemberOf
       (fun k w => if k = kAction then ActionRule.action w else .notAction w) (fun _ => rfl) .actionShape
@@ -783,10 +770,10 @@ theorem statementOfJson_of_grammar (x : Json) (h : stmtViol false x = none) :
   | obj ms => exact statement_of_grammar ms h
   | _ => simp [stmtViol] at h
 
-theorem grammar_of_statementOfJson (x : Json) (s : Statement) (h : statementOfJson x = some s)
-    (hq : stmtQuirk x = false) : stmtViol false x = none := by
+theorem grammar_of_statementOfJson (x : Json) (s : Statement) (h : statementOfJson x = some s) :
+    stmtViol false x = none := by
   cases x with
-  | obj ms => exact grammar_of_statement ms s h hq
+  | obj ms => exact grammar_of_statement ms s h
   | _ => simp [statementOfJson] at h
 
 theorem statementList_of_grammar (items : List Json) (h : ∀ x ∈ items, stmtViol false x = none) :
@@ -801,17 +788,17 @@ theorem statementList_of_grammar (items : List Json) (h : ∀ x ∈ items, stmtV
     simp only [List.map_cons, hj (hu x (by simp)), hjs (fun y hy => hu y (List.mem_cons_of_mem _ hy))]
 
 theorem grammar_of_statementList (items : List Json) : ∀ ss, items.mapM statementOfJson = some ss →
-    (∀ x ∈ items, stmtQuirk x = false) → ∀ x ∈ items, stmtViol false x = none := by
+    ∀ x ∈ items, stmtViol false x = none := by
   induction items with
-  | nil => intro _ _ _ x hx; simp at hx
+  | nil => intro _ _ x hx; simp at hx
   | cons y ys ih =>
-    intro ss h hq x hx
+    intro ss h x hx
     simp only [List.mapM_cons, Option.bind_eq_bind, Option.bind_eq_some_iff] at h
     obtain ⟨s, hs, ss', hss, _⟩ := h
     simp only [List.mem_cons] at hx
     rcases hx with rfl | hx
-    · exact grammar_of_statementOfJson _ s hs (hq _ (by simp))
-    · exact ih ss' hss (fun z hz => hq z (List.mem_cons_of_mem _ hz)) x hx
+    · exact grammar_of_statementOfJson _ s hs
+    · exact ih ss' hss x hx
 
 theorem statements_of_grammar (v : Json) (h : statementsValueViol false v = none) :
     ∃ st, statementsOfJson v = some st ∧ (stmtsNamesUnique v = true → statementsJson st = canonStmts v) := by
@@ -827,19 +814,18 @@ theorem statements_of_grammar (v : Json) (h : statementsValueViol false v = none
     simp [statementsJson, canonStmts, hj hu]
   | _ => simp [statementsValueViol] at h
 
-theorem grammar_of_statements (v : Json) (st : OneOrMore Statement) (h : statementsOfJson v = some st)
-    (hq : stmtsQuirk v = false) : statementsValueViol false v = none := by
+theorem grammar_of_statements (v : Json) (st : OneOrMore Statement) (h : statementsOfJson v = some st) :
+    statementsValueViol false v = none := by
   cases v with
   | obj ms =>
     simp only [statementsOfJson, Option.map_eq_some_iff] at h
     obtain ⟨s, hs, _⟩ := h
-    exact grammar_of_statement ms s hs hq
+    exact grammar_of_statement ms s hs
   | arr items =>
     simp only [statementsOfJson, Option.map_eq_some_iff] at h
     obtain ⟨ss, hss, _⟩ := h
-    simp only [stmtsQuirk, List.any_eq_false] at hq
     simp only [statementsValueViol, List.findSome?_eq_none_iff]
-    exact grammar_of_statementList items ss hss (fun x hx => by simpa using hq x hx)
+    exact grammar_of_statementList items ss hss
   | _ => simp [statementsOfJson] at h
 
 /-! ### policy -/
@@ -879,7 +865,7 @@ theorem fromJson?_of_grammar (j : Json) (h : violation false j = none) :
   | arr _ => simp [violation] at h
   | _ => simp [violation] at h
 
-theorem grammar_of_fromJson? (j : Json) (p : Policy) (h : fromJson? j = some p) (hq : quirk j = false) :
+theorem grammar_of_fromJson? (j : Json) (p : Policy) (h : fromJson? j = some p) :
     violation false j = none := by
   cases j with
   | obj ms =>
@@ -887,21 +873,17 @@ theorem grammar_of_fromJson? (j : Json) (p : Policy) (h : fromJson? j = some p) 
     rw [policyOfMembers_eq] at h
     simp only [Option.bind_eq_some_iff] at h
     obtain ⟨v, hv, i, hi, s, hs, st, hst, _⟩ := h
-    simp only [quirk, Bool.or_eq_false_iff] at hq
     simp only [violation, Option.or_eq_none_iff]
     refine ⟨?_, ?_, ?_⟩
-    · exact grammar_of_slot_opt optVersion versionValueViol (fun v => enumObjectForm v = false) .dupMember _
-        (fun v x hx hq => grammar_of_optVersion v x hx hq) v hv (fun x hx => by
-          have := hq.1; simp only [List.any_eq_false] at this; simpa using this x hx)
+    · exact grammar_of_slot_opt optVersion versionValueViol (fun _ => True) .dupMember _
+        (fun v x hx _ => grammar_of_optVersion v x hx) v hv (fun _ _ => trivial)
     · exact grammar_of_slot_opt optString (optStringValueViol .idShape) (fun _ => True) .dupMember _
         (fun v x hx _ => (optString_some_iff _ v).mp ⟨x, hx⟩) i hi (fun _ _ => trivial)
     · subst hst
       rcases (slot_none_some_iff _ _ _).mp hs with ⟨_, hh⟩ | ⟨w, x, hm, hx, _⟩
       · cases hh
-      · have hq2 := hq.2
-        rw [hm] at hq2 ⊢
-        simp at hq2
-        simpa [exactlyOne] using grammar_of_statements w x hx hq2
+      · rw [hm]
+        simpa [exactlyOne] using grammar_of_statements w x hx
   | _ => simp [fromJson?] at h
 
 /-! ### the published grammar contains the string-valued one -/
